@@ -50,9 +50,12 @@ def regen_inputs(ctx):
     ex = F.fn(BUILD + '_execute_script')
     execs = F.effects(ex, lambda e: e.name == 'exec' and isinstance(
         e.call.func, ast.Name), depth=2)
+    pushes = F.effects(ex, lambda e: e.name == 'push_path', depth=2)
     ok = bool(execs) and all(
         has_call(e.withs(), 'push_path') and param_of(e.withs(), 'path')
-        for e in execs)
+        for e in execs) and bool(pushes) and all(
+        {a for a in direct(e.arg(0)) if not a.startswith('const:')} ==
+        {'param:path'} for e in pushes if e.fn.module is ex.module)
     ctx.ob(R, '_execute_script|exec-inside-push_path', ok, ex.node,
            'the script is executed outside context.push_path(path): it is '
            'not recorded as a regeneration input')
@@ -187,7 +190,10 @@ def find_dirs(ctx):
            if param_of(e.recv(), 'seen_dirs')]
     ok = bool(aps) and all(has_call(e.arg(0), 'walk') for e in aps) and all(
         all(param_of(F.atoms(t, ff), 'seen_dirs')
-            for t in F.guards(e.call, ff)) for e in aps) and all(
+            for t in F.guards(e.call, ff)) and
+        all(param_of(l | r_, 'seen_dirs')
+            for op, l, r_ in F.guard_compares(e.call, ff))
+        for e in aps) and all(
         any(isinstance(l, ast.For) and has_call(F.atoms(l.iter, ff), 'walk')
             for l in e.loops()) for e in aps)
     ctx.ob(R, '_find_files|every-walked-dir-recorded', ok, ff.node,
